@@ -19,6 +19,10 @@ theorem every_write_is_synced : ∀ w ∈ Facts.leveldbWrites, w.2 = true := Fac
     the code, so an operation acknowledged meanwhile is in the NEXT batch and not wiped with the flushed one -/
 theorem flush_is_one_critical_section : (Facts.serialFlushHoldsLock && Facts.dbFlushHoldsLock) = true :=
   Facts.flush_is_one_critical_section
+/-- (regenerated fact) the pending batch of `DB` is reset only after the LevelDB write of the flush returned nil — in the
+    size-triggered and in the timer-triggered flush: the model's `flush` (write `ops`, continue with `[]`) is the code's SUCCESSFUL
+    flush; a failed write changes neither the store nor the batch, so acknowledged operations are not dropped by an I/O error -/
+theorem failed_write_keeps_the_batch : Facts.dbResetOnlyAfterSuccessfulWrite = true := Facts.failed_write_keeps_the_batch
 /-- (regenerated fact) what is handed to goleveldb at a flush is the batch's own record list, in the order of the operations -/
 theorem every_flush_writes_the_record_list :
     Facts.leveldbWriteArgs = ["DB.putBatch: dbBatch.batch", "putBatchAct.doPutRequest: p.batch.batch"] :=
